@@ -87,6 +87,7 @@ inductive MPc where
   | p197 | p198 | p199 | p201
   | pdLock | p203 | p203w | pdUnlock
   | m128 | m132
+  | mExit                                  -- `_monitor_stale_jobs` has returned; the thread is still alive until its teardown ends
   | dead
   deriving DecidableEq, Repr
 
@@ -250,7 +251,8 @@ def stepM (c : Cfg) (p : Params) (s : State) : Option State :=
   | .p203w => some { s with num := m.decRead - m.jobs.length, mon := { m with pc := .m126 } }
   | .pdUnlock => release .m126
   | .m128 => go .m132
-  | .m132 => some { s with errors := s.errors ++ [m.err], mon := { m with pc := .dead } }
+  | .m132 => some { s with errors := s.errors ++ [m.err], mon := { m with pc := .mExit } }
+  | .mExit => go .dead
 
 /-- schedule letters: a thread step or the environment advancing the clock -/
 inductive Ev where
